@@ -149,7 +149,9 @@ func (n namedReader) Name() string { return n.name }
 func c15Opts(r *mon.RNG, i int) *gram.GenOpts {
 	prof := []int{gram.ProfStateful, gram.ProfDefault, gram.ProfLower, gram.ProfScanCfg}[i%4]
 	return &gram.GenOpts{Profile: prof, MaxProds: 4, Budget: 10 + r.Intn(12), Depth: 2 + r.Intn(2), TokKinds: i%2 == 0, Unions: true,
-		SharePrefix: 5, CaptureBias: 5, SubBias: 3, AllowBang: true, ForcePos: i%2 == 1}
+		SharePrefix: 5, CaptureBias: 5, SubBias: 3, AllowBang: true, ForcePos: i%2 == 1,
+		// every second grammar over the Elide() profile may name the elided types (references and bare literals)
+		NamesElided: i%8 == 0}
 }
 
 func sameStream(a, b []lexer.Token) string {
@@ -312,6 +314,11 @@ func c15Child(c *mon.Child) {
 			text := gram.Render(g.Profile, toks, ii%6, r.Fork("render", ii))
 			if ii%9 == 8 {
 				text = lexgen.Soup(r, r.Range(1, 12)) // arbitrary bytes: lexing errors must agree too
+			}
+			if ii%11 == 10 {
+				// a byte order mark in front: whatever a lexer makes of it, every entry point has to make the same
+				text = "\xef\xbb\xbf" + text
+				c.Feature("inputs_starting_with_a_byte_order_mark")
 			}
 			fname := []string{"in.txt", "", "d/é.x"}[ii%3]
 			c.Begin(key, fmt.Sprintf("%s <- %q", trunc(gdesc, 300), text))
